@@ -333,18 +333,18 @@ func Run(rep *hx.Report, props Props, tier string, sh hx.Shard, deadline time.Ti
 			al := Alphabet(m)
 			lims := [][2]uint64{{m, m}, {3, 4}}
 			if thorough {
-				rep.Bound = "M in {8,5}, limits (M,M) and (3,4): all programs of length 1..2 over 16 letters alone; all ordered pairs of programs of length 1..2 over 10 letters x every offset x every entry point at P=2; all triples over 8 letters x all offset pairs; each x every shift in [0,M) x offset spellings off+jM, j in 0..2"
+				rep.Bound = "M in {8,5}, limits (M,M) and (3,4): all programs of length 1..2 over 16 letters alone; all ordered pairs of programs of length 1..2 over 10 letters x every offset x every entry point at P=2; all triples over 8 letters x all offset pairs; each x every shift in [0,M) x offset spellings off+jM, j in 0..2, and the largest one below 2^64"
 				r.singles(m, Programs(al, len(al), 2), lims, 12)
 				r.pairs(m, Programs(al, 10, 2), []uint64{2}, []uint64{12}, lims, true)
 				r.triples(m, al, 8, []uint64{2}, 10, lims[:1])
-				rep.Bound += "; eight complete warriors of 1..10 instructions alone, in every ordered pair at two spacings and in triples on cores of 64 (every shift), 257 and 4096 cells (shifts 1, 65535, 65536, 65537, M-1, M, M+1, 3M+7), process limits 8 and 300, 3000 cycles; a 70001-cell core with offsets around 2^16"
+				rep.Bound += "; eight complete warriors of 1..10 instructions alone, in every ordered pair at two spacings and in triples on cores of 64 (every shift), 257 and 4096 cells (shifts 1, 65535, 65536, 65537, M-1, M, M+1, 3M+7 and a multiple of M just below 2^64), process limits 8 and 300, 3000 cycles; a 70001-cell core with offsets around 2^16"
 			} else {
-				rep.Bound = "M in {8,5}, limits (M,M) and (3,4): all programs of length 1..2 over the 20-letter alphabet and of length 3 over 6 letters alone (first and last instruction as entry point); all ordered pairs of programs of length 1..2 over 6 letters x every offset at P=2; all triples over 5 letters; each x every shift x 3 offset spellings"
+				rep.Bound = "M in {8,5}, limits (M,M) and (3,4): all programs of length 1..2 over the 20-letter alphabet and of length 3 over 6 letters alone (first and last instruction as entry point); all ordered pairs of programs of length 1..2 over 6 letters x every offset at P=2; all triples over 5 letters; each x every shift x 4 offset spellings (off+jM for j in 0..2 and the largest one below 2^64)"
 				r.singles(m, Programs(al, len(al), 2), lims, 10)
 				r.singles(m, Programs(al, 6, 3)[42:], lims[:1], 10) // the 216 three-instruction programs over 6 letters
 				r.pairs(m, Programs(al, 6, 2), []uint64{2}, []uint64{10}, lims, true)
 				r.triples(m, al, 5, []uint64{2}, 8, lims[:1])
-				rep.Bound += "; eight complete warriors of 1..10 instructions alone and in every ordered pair at two spacings on a 257-cell core (shifts 1, 65535, 65536, 65537, M-1, M, M+1, 3M+7), 1500 cycles; a 70001-cell core with offsets around 2^16"
+				rep.Bound += "; eight complete warriors of 1..10 instructions alone and in every ordered pair at two spacings on a 257-cell core (shifts 1, 65535, 65536, 65537, M-1, M, M+1, 3M+7 and a multiple of M just below 2^64), 1500 cycles; a 70001-cell core with offsets around 2^16"
 			}
 		}
 	case props.C04:
@@ -354,20 +354,25 @@ func Run(rep *hx.Report, props Props, tier string, sh hx.Shard, deadline time.Ti
 			r.hostileProduct(3, []uint64{1, 2, 5}, [][2]uint64{{1, 2}, {2, 1}, {0, 0}, {2, 2}}, []uint64{1, 2})
 			r.classics([]uint64{64}, []uint64{3, 8, 64}, 2000, true)
 			r.configs(true)
-			rep.Bound += "; boundary product of all 7 configuration fields x 3 modes (241920 configurations): creation errors or a hostile 3-warrior battle of min(cycles,40) cycles under the invariants"
+			rep.Bound += "; boundary product of all 7 configuration fields x 3 modes (241920 configurations): creation errors or a hostile 3-warrior battle of min(cycles,40) cycles under the invariants; every read x write limit in 1..4M+2 for M in {3,4,5,8}; the six presets"
 		} else {
 			rep.Bound = "every one-instruction warrior (7616 forms x 2 field pairs) against 12 hostile programs, M=8, P in {1,3}, offsets {1,4,7}, 30 cycles, invariants after every cycle; eight complete warriors of 1..10 instructions alone and in every ordered pair on a 64-cell core, process limit 8, 600 cycles"
 			r.hostileProduct(8, []uint64{1, 3}, [][2]uint64{{1, 7}, {0, 3}}, []uint64{1, 4, 7})
 			r.classics([]uint64{64}, []uint64{8}, 600, false)
 			r.configs(false)
-			rep.Bound += "; boundary product of the configuration fields x 3 modes with the 2^20 core/process values on a diagonal only"
+			rep.Bound += "; boundary product of the configuration fields x 3 modes with the 2^20 core/process values on a diagonal only; read/write limits 1..4M+2 for M in {3,4,5,8} (equal, or one of them 1 or M); the six presets"
 		}
 	case props.C15:
 		if sh.I == 0 {
 			r.ck.manyResets(64, 70000)
 		}
+		if sh.I == 1%sh.N {
+			for _, n := range []int{5, 300, 70000} {
+				r.ck.manyWarriors(64, n)
+			}
+		}
 		if thorough {
-			rep.Bound = "one simulator (M=64) through 70000 battles separated by Reset, most of them away from the cells the first one touched; recording listener + StateRecorder on: all programs of length 1..2 over 16 letters alone; all ordered pairs of programs of length 1..2 over 12 letters x offsets x P 1..2; triples over 8 letters; 12-letter programs with Reset after every cycle count 0..6; load offsets M, M+3, 2M+7, 5M; eight complete warriors of 1..10 instructions alone, in pairs and in triples on a 64-cell core, process limits 3, 8, 64, 2000 cycles"
+			rep.Bound = "one simulator (M=64) through 70000 battles separated by Reset, most of them away from the cells the first one touched; simulators holding 5, 300 and 70000 warriors with eleven of them (indices around 2^7, 2^8, 2^15, 2^16 and the last) spawned and run; recording listener + StateRecorder on: all programs of length 1..2 over 16 letters alone; all ordered pairs of programs of length 1..2 over 12 letters x offsets x P 1..2; triples over 8 letters; 12-letter programs with Reset after every cycle count 0..6; load offsets M, M+3, 2M+7, 5M; eight complete warriors of 1..10 instructions alone, in pairs and in triples on a 64-cell core, process limits 3, 8, 64, 2000 cycles"
 			p2 := Programs(alpha, 12, 2)
 			r.singles(M, Programs(alpha, 16, 2), full, 16)
 			r.pairs(M, p2, []uint64{1, 2}, []uint64{16}, full, false)
@@ -376,7 +381,7 @@ func Run(rep *hx.Report, props Props, tier string, sh hx.Shard, deadline time.Ti
 			r.bigOffsets(M, Programs(alpha, 12, 2))
 			r.classics([]uint64{64}, []uint64{3, 8, 64}, 2000, true)
 		} else {
-			rep.Bound = "one simulator (M=64) through 70000 battles separated by Reset, most of them away from the cells the first one touched; recording listener + StateRecorder on: all programs of length 1..2 over 12 letters alone; all ordered pairs of programs of length 1..2 over 8 letters x offsets at P=2; triples over 5 letters; 8-letter programs with Reset after every cycle count 0..4; load offsets M, M+3, 2M+7, 5M; eight complete warriors of 1..10 instructions alone and in every ordered pair on a 64-cell core, process limit 8, 600 cycles"
+			rep.Bound = "one simulator (M=64) through 70000 battles separated by Reset, most of them away from the cells the first one touched; simulators holding 5, 300 and 70000 warriors with eleven of them (indices around 2^7, 2^8, 2^15, 2^16 and the last) spawned and run; recording listener + StateRecorder on: all programs of length 1..2 over 12 letters alone; all ordered pairs of programs of length 1..2 over 8 letters x offsets at P=2; triples over 5 letters; 8-letter programs with Reset after every cycle count 0..4; load offsets M, M+3, 2M+7, 5M; eight complete warriors of 1..10 instructions alone and in every ordered pair on a 64-cell core, process limit 8, 600 cycles"
 			r.singles(M, Programs(alpha, 12, 2), full, 12)
 			r.pairs(M, Programs(alpha, 8, 2), []uint64{2}, []uint64{12}, full, false)
 			r.triples(M, alpha, 5, []uint64{2}, 8, full)
